@@ -130,9 +130,8 @@ def mods():
     return sim, optcont, slr
 
 
-def run_impl(c, sl=None):
-    """(a, b) per position as 1-D complex arrays; sl = slice over time (for the composition oracle)"""
-    sim, optcont, _ = mods()
+def _args(c, sl=None):
+    """the argument arrays of one call (kept so that the same objects can be handed over twice)"""
     s = c["sim"]
     sl = sl or slice(None)
     if s == "abrm_ptx":
@@ -140,21 +139,56 @@ def run_impl(c, sl=None):
         x, g = np.array(c["x"], dtype=float), np.array(c["g"], dtype=float)[sl]
         sens = None if c["sens"] is None else np.array([[l2c(rr) for rr in sp] for sp in c["sens"]])
         fmap = None if c["fmap"] is None else np.array(c["fmap"], dtype=float)
-        a, b, _, _ = sim.abrm_ptx(b1, x, g, c["dt"], fmap=fmap, sens=sens)
-        return np.asarray(a).ravel().astype(complex), np.asarray(b).ravel().astype(complex)
+        return dict(b1=b1, x=x, g=g, sens=sens, fmap=fmap)
     rf = l2c(c["rf"])[sl]
     if s == "abrm":
-        a, b = sim.abrm(rf, np.array(c["x"], dtype=float), c["balanced"])
+        return dict(rf=rf, x=np.array(c["x"], dtype=float))
+    if s == "abrm_nd":
+        return dict(rf=rf, x=np.array(c["x"], dtype=float), g=np.array(c["g"], dtype=float)[sl])
+    if s == "abrm_hp":
+        return dict(rf=rf, g=np.array(c["g"], dtype=float)[sl], x=np.array(c["x"], dtype=float))
+    x, g = np.array(c["x"], dtype=float), np.array(c["g"], dtype=float)[sl]
+    if c.get("oned"):
+        x, g = np.ascontiguousarray(x[:, 0]), np.ascontiguousarray(g[:, 0])
+    return dict(rf=rf, x=x, g=g)
+
+
+def _call(c, A):
+    sim, optcont, _ = mods()
+    s = c["sim"]
+    if s == "abrm_ptx":
+        a, b, _, _ = sim.abrm_ptx(A["b1"], A["x"], A["g"], c["dt"], fmap=A["fmap"], sens=A["sens"])
+    elif s == "abrm":
+        a, b = sim.abrm(A["rf"], A["x"], c["balanced"])
     elif s == "abrm_nd":
-        a, b = sim.abrm_nd(rf, np.array(c["x"], dtype=float), np.array(c["g"], dtype=float)[sl])
+        a, b = sim.abrm_nd(A["rf"], A["x"], A["g"])
     elif s == "abrm_hp":
-        a, b = sim.abrm_hp(rf, np.array(c["g"], dtype=float)[sl], np.array(c["x"], dtype=float), c["dom0dt"])
-    elif s == "blochsim":
-        x, g = np.array(c["x"], dtype=float), np.array(c["g"], dtype=float)[sl]
-        if c.get("oned"):
-            x, g = x[:, 0], g[:, 0]
-        a, b = optcont.blochsim(rf, x, g)
+        a, b = sim.abrm_hp(A["rf"], A["g"], A["x"], c["dom0dt"])
+    else:
+        a, b = optcont.blochsim(A["rf"], A["x"], A["g"])
     return np.asarray(a).ravel().astype(complex), np.asarray(b).ravel().astype(complex)
+
+
+def run_impl(c, sl=None):
+    """(a, b) per position as 1-D complex arrays; sl = slice over time (for the composition oracle)"""
+    return _call(c, _args(c, sl))
+
+
+def reuse_oracle(c, a, b):
+    """the same argument OBJECTS handed over twice: identical rotations, arguments untouched (a simulator that scales / shifts the
+    caller's position or waveform array in place is invisible to calls on fresh arrays)"""
+    A = _args(c)
+    snap = {k: (None if v is None else np.array(v, copy=True)) for k, v in A.items()}
+    a1, b1 = _call(c, A)
+    a2, b2 = _call(c, A)
+    bad = []
+    for k, v in A.items():
+        if v is not None and not np.array_equal(v, snap[k]):
+            bad.append(("argument-unchanged (%s)" % k, "the caller's array as passed", "modified in place"))
+    d = float(max(np.max(np.abs(a1 - a2)), np.max(np.abs(b1 - b2)), np.max(np.abs(a1 - a)), np.max(np.abs(b1 - b))))
+    if d > 0:
+        bad.append(("same-arguments-same-rotation", 0.0, d))
+    return bad
 
 
 def ptx_rows(c):
@@ -356,7 +390,7 @@ def run(ctx):
         key = json.dumps(c, sort_keys=True)
         try:
             a, b = run_impl(c)
-            bad = oracle(c, a, b)
+            bad = oracle(c, a, b) + reuse_oracle(c, a, b)
         except Exception as e:
             ctx.count(c["sim"] + ":exception", key=key, sample={k: v for k, v in c.items() if k in ("sim", "kind", "nt")})
             n_bad += 1
